@@ -274,14 +274,16 @@ pub struct Walker<'a> {
     pub cnt: Counters,
     pub text: String,
     pub events: u64,
+    /// events that came before the current word in this context and matter for it (a learning commit): part of every recorded history
+    pub prefix: Vec<Ev>,
 }
 
 impl<'a> Walker<'a> {
     pub fn new(ctx: Ctx, oracle: &'a Oracle<'a>) -> Walker<'a> {
-        Walker { ctx, oracle, seen: HashMap::new(), cnt: Counters::default(), text: String::new(), events: 0 }
+        Walker { ctx, oracle, seen: HashMap::new(), cnt: Counters::default(), text: String::new(), events: 0, prefix: vec![] }
     }
     fn evs(&self) -> Vec<Ev> {
-        self.text.chars().map(Ev::ch).collect()
+        self.prefix.iter().cloned().chain(self.text.chars().map(Ev::ch)).collect()
     }
     pub fn press(&mut self, c: char) -> bool {
         self.events += 1;
